@@ -215,7 +215,13 @@ def json_values(depth):
     if depth <= 0:
         return json_leaves
     sub = json_values(depth - 1)
-    return st.one_of(json_leaves, st.lists(sub, max_size=4), st.dictionaries(json_strings, sub, max_size=4))
+    return st.one_of(json_leaves, st.lists(sub, max_size=4), st.dictionaries(json_strings, sub, max_size=4), st.dictionaries(json_strings, sub, max_size=4),
+                     st.dictionaries(st.sampled_from(KEY_ORDER_POOL), sub, min_size=2, max_size=5))
+
+
+# keys whose order differs between code points, UTF-16 code units, UTF-8 bytes of surrogate-escaped text, case-folded or NFC-normalised comparison
+KEY_ORDER_POOL = ['\uff21', '\U0001f600', '\ufb01', '\ufffd', '\U00010000', 'k\U00010000', 'k\ufb01', '\ue000', '\U0010ffff', '\ud7ff', 'a', 'B', 'b', 'A', 'Z', '_',
+                  'e\u0301', '\u00e9', '\u00c9', 'f', '10', '9', '1', '', ' ', 'a b', 'a.b', 'a\x00', 'ab']
 
 
 def big_docs(seed, part):
